@@ -360,8 +360,10 @@ func main() {
 		}
 		outcome := "stop"
 		switch {
+		case strings.Contains(res.msg, eventCapMsg) && r.stuck():
+			outcome = "timeout" // the routine repeats the same callbacks for ever
 		case strings.Contains(res.msg, eventCapMsg):
-			outcome = "timeout"
+			outcome = "abandoned" // still visiting new points after 12000 callbacks: slow, no verdict (non-termination is C20)
 		case res.err:
 			outcome = "error"
 		case r.stopped:
@@ -385,6 +387,8 @@ func main() {
 		counts[rs.routineName()+"/"+outcome]++
 		if outcome == "timeout" {
 			writeRun([]ev{begin, {E: "timeout"}})
+		} else if outcome == "abandoned" {
+			writeRun(nil)
 		} else {
 			writeRun(append(append([]ev{begin}, r.evs...), ret))
 		}
